@@ -173,6 +173,16 @@ Proof.
   chain_cases ltac:(apply nx_run_zset).
 Qed.
 
+Lemma nx_zrand pick name h argv : CmdZRand.zrand_handler pick name = Some h -> nosx (h argv).
+Proof. unfold CmdZRand.zrand_handler. destruct (String.eqb _ _); [|done]. intros [= <-]. apply nx_run_zset. Qed.
+
+Lemma nx_keyspace cands name h argv : CmdKeyspace.keyspace_handler cands name = Some h -> nosx (h argv).
+Proof.
+  unfold CmdKeyspace.keyspace_handler. chain_cases ltac:(idtac).
+  all: unfold CmdKeyspace.handle_randomkey, CmdKeyspace.handle_touch, CmdKeyspace.handle_objfreq,
+         CmdKeyspace.handle_objidletime; nx.
+Qed.
+
 (** Every handler of every modelled module, for every argument vector, except the seven command
     words whose business is the deadline. *)
 Theorem nx_every_handler name h argv :
@@ -184,5 +194,7 @@ Proof.
   destruct (set_handler default_pick name) eqn:E3; [injection Hh as <-; by eapply nx_set|].
   destruct (zset_handler name) eqn:E4; [injection Hh as <-; by eapply nx_zset|].
   destruct (generic_handler name) eqn:E5; [injection Hh as <-; by eapply nx_generic|].
-  by eapply nx_string.
+  destruct (string_handler name) eqn:E6; [injection Hh as <-; by eapply nx_string|].
+  destruct (CmdZRand.zrand_handler CmdZRand.default_zpick name) eqn:E7; [injection Hh as <-; by eapply nx_zrand|].
+  by eapply nx_keyspace.
 Qed.
